@@ -317,6 +317,11 @@ func run(t *testing.T, sc Scenario) *core.Result {
 		m := &model{impl: sys.Implements(sc.Handler), udp: sc.UDP, medias: sc.Medias, connSess: map[int]*sessModel{}}
 		nreq := 0
 		w.Go("client", func() {
+			type pendingCheck struct {
+				frames int
+				what   string
+			}
+			pendingMedia := map[int]pendingCheck{}
 			conns := map[int]*peers.RawConn{}
 			ports := map[int]int{}
 			knownID := "" // the id of the most recent session this client learnt
@@ -511,6 +516,14 @@ func run(t *testing.T, sc Scenario) *core.Result {
 						return
 					}
 					ok := isOK(res)
+					if pc, has := pendingMedia[k]; has {
+						delete(pendingMedia, k)
+						if c.Frames == pc.frames {
+							w.Fail("c02/refused-request media", "%s; the session is still in state play, but no interleaved frame arrived on its connection during the following 80 ms (until the next response was read) although the stream is written every 3 ms", pc.what)
+							return
+						}
+						w.Probe("media_continues_after_refused_request")
+					}
 					w.Log.Add("cli", "response", "c%d %d %s sess=%v", k, res.StatusCode, res.StatusMessage, res.Header["Session"])
 					teardownOKLast = ok && s.exp == expOK && s.q.Method == "TEARDOWN" && idx == len(sents)-1
 					switch s.exp {
@@ -529,14 +542,13 @@ func run(t *testing.T, sc Scenario) *core.Result {
 						}
 						w.Probe("illegal_request_rejected")
 						if s.mediaCheck && writing.Load() {
-							// a refused request changes nothing: the stream's packets keep arriving
-							f0 := c.Frames
-							c.ReadResponse(80 * time.Millisecond) //nolint:errcheck // (times out; counts the frames it skips)
-							if writing.Load() && c.Frames == f0 {
-								w.Fail("c02/refused-request media", "%s (%s) was refused with %d; the session is still in state play, but no interleaved frame arrived on its connection during the next 80 ms although the stream is being written every 3 ms", s.q.Method, s.note, res.StatusCode)
-								return
+							// a refused request changes nothing: the stream's packets keep arriving. They are
+							// counted while the next response on this connection is read (reading with a short
+							// deadline instead could stop in the middle of a frame and lose the framing).
+							time.Sleep(80 * time.Millisecond)
+							if writing.Load() {
+								pendingMedia[k] = pendingCheck{frames: c.Frames, what: fmt.Sprintf("%s (%s) was refused with %d", s.q.Method, s.note, res.StatusCode)}
 							}
-							w.Probe("media_continues_after_refused_request")
 						}
 					case expEither:
 						w.Probe("either_outcome")
